@@ -878,8 +878,11 @@ JUNK = [b"", b"99 N host", b"99 P :+x a b", b"99 D", b"99 H", b"-1 ? bogus", b"-
         b"5 Z", b"5 %", b"-1 E a b", b"-1 M srv 5", b"98 C 1.2.3.4", b"98 C", b"  ", b"4294967395 D", b"99999999999999999999 H"]
 
 
-ACCOUNTS = ["acct", "acct:123:4", "acctx:9", "acc", "acc:7", "ACCT", "a", "acct2:1", "acc\xe9t", "acc\xe9t:5", "ac%ct"]
-ACCOUNT_PATS = ["*", "acct", "acc", "acctx", "ac*", "?cct", "ACCT", "nomatch", "acct:123", "a\\cct", "acct*", "*t", "a", "acc?t", "*\xe9*", "ac%ct", "ACC\xc9T"]
+ACCOUNTS = ["acct", "acct:123:4", "acctx:9", "acc", "acc:7", "ACCT", "a", "acct2:1", "acc\xe9t", "acc\xe9t:5", "ac%ct",
+            # names longer than ircu's own 12-byte account names, with and without a stamp
+            "bartholomew-staff:1234567890", "bartholomew-staff", "bartholomew-helper:1234567890:77", "a" * 64]
+ACCOUNT_PATS = ["*", "acct", "acc", "acctx", "ac*", "?cct", "ACCT", "nomatch", "acct:123", "a\\cct", "acct*", "*t", "a", "acc?t", "*\xe9*", "ac%ct", "ACC\xc9T",
+                "*-staff", "bartholomew-staff", "bartholomew-h*", "bartholomew-s", "a" * 64, "a" * 63 + "?"]
 HOSTS = ["host.example", "host.exampl", "Host.Example", "a.b.example", "example", "h\xf6st.example"]
 HOST_PATS = ["*", "*.example", "host.example", "host.exampl", "host.example.", "HOST.EXAMPLE", "nomatch", "host.*", "?ost.example", "h?st.example", "H\xd6ST.EXAMPLE", "h\xf6st.*"]
 IDENTS = ["ident", "iden", "identx", "~ident", "IDENT"]
@@ -914,6 +917,13 @@ def class_scenario(rng, name):
     if timed and rules and rng.random() < 0.7:
         n, kv = rules[0]
         rules[0] = (n, [x for x in kv if x[0] != "xreply_ok"] + [("xreply_ok", rng.choice([s[0] for s in services]))])
+    accounts = ACCOUNTS
+    if rules and rng.random() < 0.12:
+        # account names beyond ircu's own twelve bytes against patterns that look at their far end
+        # (seeded change C11-8x14 matched only the first twelve bytes of a stamped account)
+        n, kv = rules[0]
+        rules[0] = (n, [x for x in kv if x[0] != "account"] + [("account", rng.choice(["*-staff", "bartholomew-staff", "bartholomew-h*", "bartholomew-s"]))])
+        accounts = ["bartholomew-staff:1234567890", "bartholomew-staff", "bartholomew-helper:1234567890:77", "bartholomew-s:5"]
     cfg = Cfg(timeout=tmo, services=services, rules=rules)
     scripts = {}
     for cid in rng.sample([1, 2, 5, 7], rng.choice([1, 2])):
@@ -923,7 +933,7 @@ def class_scenario(rng, name):
         if rng.random() < 0.85:
             ev.insert(rng.randint(1, len(ev)), ("line", "P :+x acct pass"))
             if not (silent and rng.random() < 0.6):
-                ev.append(("reply", "X", "login.srv", "OK " + rng.choice(ACCOUNTS) if rng.random() < 0.9 else "OK", "cur"))
+                ev.append(("reply", "X", "login.srv", "OK " + rng.choice(accounts) if rng.random() < 0.9 else "OK", "cur"))
         if len(services) > 1 and not (silent and rng.random() < 0.6):
             ev.append(("reply", "X", "drone.srv", rng.choice(["OK", "OK", "AGAIN x"]), "cur"))
         if silent:
@@ -1028,8 +1038,25 @@ def midflight_reload_scenario(rng, name, with_stray=True):
     ev = [("C", rng.choice(["10.0.0.1", "2001:db8::1"]), "4000")] + data + [("line", "P :+x alice pw")]
     if rng.random() < 0.3:
         rng.shuffle(ev[1:])
-    ops = header(mods, cfg) + render_schedule(rng, {cid: ev})
+    scripts = {cid: ev}
+    other = None
+    if rng.random() < 0.4:
+        # a second client waits for the same service and leaves (refused, withdrawn, registered) before
+        # or after the reload: what it gives back must be its own share only (seeded change C03-8x5
+        # released a refused client's reference twice; the service the other one waited for was freed)
+        other = rng.choice([c for c in [2, 8, 9, 65535] if c != cid])
+        scripts[other] = [("C", "10.0.0.9", "4009")] + list(data) + [("line", "P :+x bob pw")]
+    ops = header(mods, cfg) + render_schedule(rng, scripts)
+    tag2 = sym_tag(other, 1, "%x_2" % (other & 0xffffffff)) if other is not None else None
+    leave = None
+    if other is not None:
+        leave = rng.choice([inl("-1 X a.srv %s :NO not you" % tag2), inl("-1 X a.srv %s :NO " % tag2), inl("%d D" % other), inl("%d T" % other)])
+        if rng.random() < 0.5:
+            ops.append(leave)
+            leave = None
     ops.append(new.op("reload"))
+    if leave:
+        ops.append(leave)
     tag = sym_tag(cid, 1, "%x_1" % (cid & 0xffffffff))
     if with_stray and any(n == "b.srv" for n, _ in new_services):
         ops.append(inl("-1 %s b.srv %s :%s" % (rng.choice(["X", "X", "x"]), tag,
